@@ -1,6 +1,12 @@
 /-
 Props/C02: Connection lifecycle is well-formed and never hangs under any link fault.
 (only the property theorems, the obligations on the regenerated source facts, and non-vacuity examples)
+
+Layer M1 (this section): the sequential protocol.  `run d Sys.init ops` executes an arbitrary sequence of
+user/environment operations (open, deliver a packet, run a worker, link error from the driver's thread, link
+error from the sending thread, close, blocking open, blocking close) on one `Crazyflie`+`SyncCrazyflie` object
+connected to an arbitrary device `d` (any table sizes); `usage` restricts the sequence to what the property
+quantifies over (one user thread; a link is opened only when none is open; only an existing driver reports errors).
 -/
 import CfVerif.Proofs.C02
 namespace CfVerif.C02
@@ -11,22 +17,174 @@ open Gen.C02
 /-- `Crazyflie.state` only ever takes the three values of the model's `St` -/
 theorem state_assignments : stateAssignments = ["State.CONNECTED", "State.DISCONNECTED", "State.INITIALIZED"] := by decide
 theorem state_codes_distinct : [stDisconnected, stInitialized, stConnected, stSetupFinished].Nodup := by decide
-/-- `_link_error_cb`: close the link, forget it, fan out by state, end in DISCONNECTED -/
+/-- `_link_error_cb`: close the link, forget it, fan out by state (table `errFanout`, used by the model), end in DISCONNECTED -/
 theorem err_prelude : errPrelude = ["self.link.close()", "self.link = None"] := by decide
 theorem err_post : errPost = ["self.state = State.DISCONNECTED"] := by decide
+/-- `open_link`: requested first, INITIALIZED before the driver is created, the first-packet callback before the set-up starts -/
+theorem open_seq : openSeq = ["connection_requested.call", "self.state = State.", "self.link_uri = ", "get_link_driver",
+    "connection_failed.call", "self.incoming.start()", "add_callback(self._check_for_initial_packet_cb)",
+    "_start_connection_setup()", "self.link.close()", "self.link = None", "connection_failed.call"] := by decide
+/-- `close_link`: set-point, close, forget the link, `disconnected`, DISCONNECTED -/
+theorem close_seq : closeSeq = ["send_setpoint", "self.link.close()", "self.link = None", "self.disconnected.call",
+    "self.state = State."] ∧ closeStates = ["State.DISCONNECTED"] ∧
+    closeGuards = ["self.link is not None", "self.link is not None"] := by decide
+theorem first_packet_seq : firstPacketSeq = ["self.state = State.CONNECTED", "self.link_established.call(self.link_uri)",
+    "self.packet_received.remove_callback(self._check_for_initial_packet_cb)"] := by decide
+/-- the set-up chain platform → log → memories → parameters → `connected` → values → `fully_connected` -/
+theorem setup_chain : setupChain = [
+    "_start_connection_setup -> platform.fetch_platform_informations(_platform_info_fetched)",
+    "_platform_info_fetched -> log.refresh_toc(_log_toc_updated_cb)",
+    "_log_toc_updated_cb -> mem.refresh(_mems_updated_cb)",
+    "_mems_updated_cb -> param.refresh_toc(_param_toc_updated_cb)",
+    "_param_toc_updated_cb -> connected.call() ; param.request_update_of_all_params()",
+    "_all_parameters_updated -> fully_connected.call()"] ∧ allUpdatedHook = ["self._all_parameters_updated"] := by decide
+/-- loop conditions of the TOC fetcher, the memory enumeration and the extended-type fetcher -/
+theorem loop_conditions :
+    tocCompares = ["self.nbr_of_items > 0", "ident != self.requested_index", "self.requested_index < self.nbr_of_items - 1"] ∧
+    memCompares = ["self.nbr_of_mems > 0", "self.nbr_of_mems - 1 >= self._fetch_id"] ∧
+    extCompares = ["self._req_param == var_id", "self._count == 0"] ∧
+    paramAllUpdatedCond = ["self._check_if_all_updated() and (not self.is_updated)"] := by decide
+/-- what `disconnected` / `connection_requested` reset in the parameter subsystem -/
+theorem param_resets : paramDisconnected = ["self.param_updater.close()", "self.toc = Toc()", "self.values = {}"] ∧
+    paramConnectionRequested = ["self.is_updated = False", "self.toc = Toc()", "self.values = {}"] ∧
+    updaterCloseSeq = ["self.request_queue.get(block=False)", "self.wait_lock.release()"] := by decide
+/-- the callbacks of `SyncCrazyflie` -/
+theorem sync_callbacks :
+    syncConnected = ["self._is_link_open = True", "self._connect_event.set()"] ∧
+    syncConnectionFailed = ["self._is_link_open = False", "self._connect_event.set()"] ∧
+    syncDisconnected.take 3 = ["self._remove_callbacks()", "self._is_link_open = False", "self._disconnect_event.set()"] ∧
+    syncAddCallbacks = ["connected:self._connected", "connection_failed:self._connection_failed",
+      "disconnected:self._disconnected", "fully_connected:self._all_params_updated"] := by decide
+theorem sync_open_close_seq :
+    syncOpenSeq = ["raise Exception('Link already open')", "self._add_callbacks()", "self._connect_event = Event()",
+      "self.cf.open_link(", "self._connect_event.wait()", "self._connect_event = None", "self._remove_callbacks()",
+      "raise Exception(self._error_message)"] ∧
+    syncOpenGuards = ["self.is_link_open()", "not self._is_link_open"] ∧
+    syncCloseSeq = ["self._disconnect_event = Event()", "self.cf.close_link()", "self._disconnect_event.wait()",
+      "self._disconnect_event = None"] ∧ syncCloseGuards = ["self.is_link_open()"] := by decide
 
-/-! ## Link error fan-out (clauses "connection_failed before the first packet", "exactly one disconnected and
-then one connection_lost after it") -/
+/-- REPAIRS the theorems below depend on (they fail to build on a tree where the defect is present):
+D1 `SyncCrazyflie._disconnected` wakes a waiting `open_link`; D21 TOC / extended-type fetchers of an aborted
+attempt unregister on `disconnected`. -/
+theorem repaired_D1 : syncDisconnectedSetsConnectEvent = true ∧ Sys.init.w.fixD1 = true := by decide
+theorem repaired_D21 : tocFetcherAbortsOnDisconnect = true ∧ extFetcherAbortsOnDisconnect = true ∧
+    Sys.init.c.fixD21 = true := by decide
 
-/-- what `_link_error_cb` signals, in every state; afterwards the object is DISCONNECTED without a link -/
+/-! ## M1 theorems -/
+
+/-- **trace_wf**: for every device and every operation sequence, the trace of operations and callbacks is accepted
+by the specification automaton `WF` (Spec/C02): requested, then failed or a prefix of established, connected, fully;
+link failure before the first packet ⇒ exactly `connection_failed`, after it ⇒ exactly `disconnected` then
+`connection_lost`; every `close_link` ⇒ exactly one `disconnected` of its own; nothing of an attempt after it ended;
+blocking calls return only when connected / raise only when the attempt is over; nothing is left owed. -/
+theorem trace_wf (d : Dev) (ops : List Op) (hu : usage d Sys.init ops = true) : WF (run d Sys.init ops).2 := by
+  have := (run_sound d ops Sys.init (sinv_init d) hu).2
+  exact ⟨_, this, rfl⟩
+
+example : usage ⟨true, 2, 1, [true, false]⟩ Sys.init
+    [.syncOpen true, .deliver, .deliver, .arm, .deliver, .syncOpen true, .deliver, .err, .close] = true := by decide
+
+/-- **connected_only_when_tables_complete**: whenever an operation signals `connected`, all `nLog` log entries, all
+`nPar` parameter entries and the extended type of every extended parameter have been received in this attempt. -/
+theorem connected_only_when_tables_complete (d : Dev) (ops : List Op) (op : Op)
+    (hu : usage d Sys.init (ops ++ [op]) = true) :
+    Out.cb .connected ∈ (step d (run d Sys.init ops).1 op).2 →
+      complete d (step d (run d Sys.init ops).1 op).1.c := by
+  rw [usage_append] at hu
+  simp only [Bool.and_eq_true, usage, Bool.and_true] at hu
+  have hs := (run_sound d ops Sys.init (sinv_init d) hu.1).1
+  have hc := core_shape d _ op hs hu.2
+  intro hm
+  rw [step_eq] at hm ⊢
+  exact hc.2.2.1 (stepW_cb_mem _ _ _ _ hm)
+
+/-- **fully_only_when_all_values**: whenever an operation signals `fully_connected`, every parameter has a value. -/
+theorem fully_only_when_all_values (d : Dev) (ops : List Op) (op : Op)
+    (hu : usage d Sys.init (ops ++ [op]) = true) :
+    Out.cb .fully ∈ (step d (run d Sys.init ops).1 op).2 →
+      allVals d (step d (run d Sys.init ops).1 op).1.c := by
+  rw [usage_append] at hu
+  simp only [Bool.and_eq_true, usage, Bool.and_true] at hu
+  have hs := (run_sound d ops Sys.init (sinv_init d) hu.1).1
+  have hc := core_shape d _ op hs hu.2
+  intro hm
+  rw [step_eq] at hm ⊢
+  exact hc.2.2.2 (stepW_cb_mem _ _ _ _ hm)
+
+/-- **sync_open_returns / sync_close_returns**: after every operation sequence, a `SyncCrazyflie.open_link` that is
+still blocked belongs to an attempt that is still in progress (link open, `connected` not yet signalled): as soon as
+the attempt ends — link error from either thread, `close_link`, `connection_failed` — or connects, the call has
+returned or raised.  `SyncCrazyflie.close_link` is never left blocked. -/
+theorem sync_open_returns (d : Dev) (ops : List Op) (hu : usage d Sys.init ops = true) :
+    let s := (run d Sys.init ops).1
+    (s.w.waitOpen = true → s.c.link = true ∧ (phase s.c = .req ∨ phase s.c = .est)) ∧ s.w.waitClose = false := by
+  have hs := (run_sound d ops Sys.init (sinv_init d) hu).1
+  have hw := wOk_wait _ _ hs.wrap
+  refine ⟨fun h => ?_, hw.2⟩
+  have hp := hw.1 h
+  refine ⟨?_, hp⟩
+  rw [← phase_linked hs.core]
+  rcases hp with hp | hp <;> rw [hp] <;> rfl
+
+/-- **fault_reaches_disconnected**: a link error (from the driver's thread, in any state) and `close_link` leave
+the object DISCONNECTED without a link, in that one operation. -/
+theorem fault_reaches_disconnected (s : S) :
+    (linkErrorCb s).1.st = .disc ∧ (linkErrorCb s).1.link = false ∧
+    (closeLink s).1.st = .disc ∧ (closeLink s).1.link = false := by
+  refine ⟨?_, ?_, ?_, ?_⟩
+  · rw [linkErrorCb_eq]; cases s.st <;> rfl
+  · rw [linkErrorCb_eq]; cases s.st <;> rfl
+  · simp [closeLink, andThen, pureS, disconnectedCall, emit]
+  · simp [closeLink, andThen, pureS, disconnectedCall, emit]
+
+/-- what `_link_error_cb` signals, in every state -/
 theorem link_error_outputs (s : S) :
-    ((linkErrorCb s).2 = match s.st with
+    (linkErrorCb s).2 = match s.st with
       | .init => [.linkFailed, .cb .failed]
       | .conn => [.linkFailed, .cb .disconnected, .cb .lost]
-      | .disc => [.linkFailed, .cb .discLinkError]) ∧
-    (linkErrorCb s).1.st = .disc ∧ (linkErrorCb s).1.link = false := by
-  cases h : s.st <;>
-    simp [linkErrorCb, h, errCallers_init, errCallers_conn, errCallers_disc, callAll, callByName, andThen, pureS, emit,
-      disconnectedCall]
+      | .disc => [.linkFailed, .cb .discLinkError] := by
+  rw [linkErrorCb_eq]; cases s.st <;> rfl
+
+/-- **reconnectable** (structural half): after ANY history that ends without a link, opening again puts the
+`Crazyflie` object into exactly the state a fresh object is in after `open_link` — except for the inert last
+`_lock_pattern` of the parameter thread (only compared while its lock is held) — and the wrapper into its initial
+state.  All theorems above hold from there, as from any reachable state. -/
+theorem reconnectable (d : Dev) (ops : List Op) (hu : usage d Sys.init ops = true) :
+    let s := (run d Sys.init ops).1
+    s.c.link = false → s.c.armed = false →
+      s.w = { fixD1 := true } ∧
+      (openLink true s.c).1 = { (openLink true S.init).1 with upd := { q := [], locked := false, pat := s.c.upd.pat } } ∧
+      (openLink true s.c).2 = (openLink true S.init).2 := by
+  intro s hl ha
+  have hs := (run_sound d ops Sys.init (sinv_init d) hu).1
+  have hw := hs.wrap
+  rw [phase_down _ hl] at hw
+  exact ⟨wOk_idle _ hw, reopen_eq d _ hs.core hl ha⟩
+
+/-! ## The unrepaired code (counterexamples; the same scripts are replayed on the real code by `search()`) -/
+
+/-- the object as the UNREPAIRED code builds it -/
+def unrepairedD1 : Sys := { c := { fixD21 := true }, w := { fixD1 := false } }
+def unrepairedD21 : Sys := { c := { fixD21 := false }, w := { fixD1 := true } }
+
+/-- D1: `SyncCrazyflie.open_link`, one packet, link error: the attempt is over, the call is blocked for ever. -/
+theorem sync_open_hangs_counterexample :
+    ¬ (∀ (d : Dev) (ops : List Op), usage d unrepairedD1 ops = true →
+        (run d unrepairedD1 ops).1.w.waitOpen = true → (run d unrepairedD1 ops).1.c.link = true) := by
+  intro h
+  exact absurd (h ⟨true, 0, 0, [true]⟩ [.syncOpen true, .deliver, .err] (by decide) (by decide)) (by decide)
+
+/-- D21: link error while the extended type of the only parameter is being fetched, then a second attempt on the
+same object: the stale fetcher and the new one both signal `connected`; the trace is not well formed. -/
+def staleFetcherOps : List Op :=
+  [.open true, .deliver, .deliver, .deliver, .deliver, .deliver, .deliver, .deliver, .work, .err,
+   .open true, .deliver, .deliver, .deliver, .deliver, .deliver, .deliver, .deliver, .work, .deliver]
+
+theorem stale_fetcher_counterexample :
+    usage ⟨true, 0, 0, [true]⟩ unrepairedD21 staleFetcherOps = true ∧
+    wfRun {} (run ⟨true, 0, 0, [true]⟩ unrepairedD21 staleFetcherOps).2 = none := by decide
+
+/-- the same script on the repaired model is fine (and `trace_wf` covers every script) -/
+example : (wfRun {} (run ⟨true, 0, 0, [true]⟩ Sys.init staleFetcherOps).2).isSome = true := by decide
 
 end CfVerif.C02
